@@ -128,6 +128,16 @@ def listing_case(args):
             w.server.commands_mapping.pop("mlst")
         aioftp.server.time = TimeProxy(now)
         aioftp.client.datetime = datetime_proxy(now)
+        # is the clock of both sides really under our control?  (if the modules reach the time another way, the
+        # ls-format time comparison is skipped rather than judged against the wrong "now")
+        probe = now - 86400 * 200
+        try:
+            ctl = (aioftp.Server.build_list_mtime(probe) == aioftp.Server.build_list_mtime(probe, now)
+                   and aioftp.Server.build_list_mtime(now - 60) == aioftp.Server.build_list_mtime(now - 60, now)
+                   and aioftp.Client.parse_ls_date("Jan 01 00:00") == aioftp.Client.parse_ls_date("Jan 01 00:00", now=datetime.datetime.fromtimestamp(now)))
+        except Exception:
+            ctl = False
+        res["timectl"] = ctl
         cl = factory()
         await cl.connect("127.0.0.1", W.CTL_PORT)
         await cl.login("u1", "x")
@@ -157,6 +167,7 @@ def listing_case(args):
     cases = []
     for what in ("list", "stat"):
         cases.append({"kind": "listing", "format": "ls" if fallback else "mlsx", "now": now, "off": off, "truth": truth,
+                      "timectl": bool(res.get("timectl", False)),
                       "got": [conv(g) for g in res.get(what, [])], "what": what, "error": err or None, "zone": zone})
     return {"crash": None, "cases": cases}
 
